@@ -5,13 +5,23 @@ From TV Require Import Base.Prelude Base.Utf8 Base.Winnow Gen.Consts.
 From TV Require Import Model.Datetime Spec.DatetimeSpec Model.Numbers Model.Tree Model.Parse Model.Document Model.Write Model.Encode Model.Build.
 From TV Require Import Proofs.BuiltRTEncode Proofs.BuiltRTValue Proofs.BuiltRTLeaf Proofs.BuiltRTTop Proofs.BuiltRTDocEncode Proofs.BuiltRTDoc.
 From TV Require Import Spec.SerdeData Model.Ser Model.De Model.SerFmt Model.SerDoc.
-From TV Require Import Proofs.SerdeRTBase Proofs.SerDocDe Proofs.SerDocWf Proofs.SerDocBuilt Proofs.SerDocBack.
+From TV Require Import Proofs.NumbersRT_Float Proofs.SerdeRTBase Proofs.SerDocDe Proofs.SerDocWf Proofs.SerDocBuilt Proofs.SerDocBack.
+Require Import Lia.
 
 (* the arrays of the one-line layout are Model/Build.v's constructed arrays *)
 Lemma harr_plain es :
   Forall (BuiltValue scalar_ok key_ok) es -> Forall (fun e => value_decor e = decor_default) es ->
   BuiltValue scalar_ok key_ok (mk_array false es).
 Proof. intros H _. unfold mk_array. cbn [andb]. unfold array_from_iter. constructor; [apply default_built|exact H]. Qed.
+
+Lemma harr_any ml es :
+  Forall (BuiltValue scalar_ok key_ok) es -> Forall (fun e => value_decor e = decor_default) es ->
+  BuiltValue scalar_ok key_ok (mk_array ml es).
+Proof.
+  intros H _. unfold mk_array. destruct (ml && (2 <=? length es)).
+  - constructor; [apply default_built|exact H].
+  - unfold array_from_iter. constructor; [apply default_built|exact H].
+Qed.
 
 Definition arrays_built (ml : bool) : Prop :=
   forall es, Forall (BuiltValue scalar_ok key_ok) es -> Forall (fun e => value_decor e = decor_default) es ->
@@ -38,6 +48,7 @@ Section Top.
       ser_doc fd r t v = Some T
       /\ BuiltTbl scalar_ok key_ok T
       /\ parse_document (display_document (render_tbl float_text T) REmpty) = POk d
+      /\ abs_tbl (doc_root d) = printed_entries (abs_tbl T)
       /\ tv_equiv x (tomlval_of_abs back (abs_tbl (doc_root d)))
       /\ de_doc back t (abs_tbl (doc_root d)) = Ok v' /\ sval_eq v v'.
   Proof.
@@ -52,18 +63,81 @@ Section Top.
     exists T, d, v'. unfold ser_doc, de_doc. rewrite Hser. repeat split; assumption.
   Qed.
 
-  (* the one-line array layout: toml_edit::ser::to_string, toml::to_string *)
-  Theorem text_roundtrip_plain r t v x :
-    multiline r = false ->
+  (* all four text routes *)
+  Theorem text_roundtrip r t v x :
     has_type v t -> utf8_ty t = true -> utf8_sv v = true ->
     ser_text r t v = Ok x -> tv_depth x <= LIMIT ->
     exists T d v',
       ser_doc fd r t v = Some T
       /\ BuiltTbl scalar_ok key_ok T
       /\ parse_document (display_document (render_tbl float_text T) REmpty) = POk d
+      /\ abs_tbl (doc_root d) = printed_entries (abs_tbl T)
       /\ tv_equiv x (tomlval_of_abs back (abs_tbl (doc_root d)))
       /\ de_doc back t (abs_tbl (doc_root d)) = Ok v' /\ sval_eq v v'.
+  Proof. apply text_roundtrip_gen. intros es. apply harr_any. Qed.
+
+  (* C07_text_roundtrip *)
+  Theorem text_roundtrip_main r t v x :
+    has_type v t -> utf8_ty t = true -> utf8_sv v = true ->
+    ser_text r t v = Ok x -> tv_depth x <= LIMIT ->
+    exists T d v',
+      ser_doc fd r t v = Some T
+      /\ parse_document (display_document (render_tbl float_text T) REmpty) = POk d
+      /\ de_doc back t (abs_tbl (doc_root d)) = Ok v' /\ sval_eq v v'.
   Proof.
-    intro Hml. apply text_roundtrip_gen. rewrite Hml. exact harr_plain.
+    intros Hty Ht Hu Hser Hd. destruct (text_roundtrip r t v x Hty Ht Hu Hser Hd) as (T & d & v' & H1 & _ & H3 & _ & _ & H6 & H7).
+    exists T, d, v'. auto.
+  Qed.
+
+  (* the nesting bound read off the type *)
+  Theorem text_roundtrip_by_type r t v x :
+    has_type v t -> utf8_ty t = true -> utf8_sv v = true ->
+    ser_text r t v = Ok x -> ty_depth t <= LIMIT ->
+    exists T d v',
+      ser_doc fd r t v = Some T
+      /\ parse_document (display_document (render_tbl float_text T) REmpty) = POk d
+      /\ de_doc back t (abs_tbl (doc_root d)) = Ok v' /\ sval_eq v v'.
+  Proof.
+    intros Hty Ht Hu Hser Hd. apply (text_roundtrip_main r t v x Hty Ht Hu Hser).
+    pose proof (ser_text_depth r t v x Hser) as H. unfold LIMIT in *. apply Nat.le_trans with (Nat.max 1 (ty_depth t)); [exact H|].
+    apply Nat.max_lub; [|exact Hd]. apply Nat.leb_le. reflexivity.
+  Qed.
+
+  (* what comes back is the tree that was written, in the printed order *)
+  Theorem text_inverse r t v x :
+    has_type v t -> utf8_ty t = true -> utf8_sv v = true ->
+    ser_text r t v = Ok x -> tv_depth x <= LIMIT ->
+    exists T d,
+      ser_doc fd r t v = Some T
+      /\ BuiltTbl scalar_ok key_ok T
+      /\ parse_document (display_document (render_tbl float_text T) REmpty) = POk d
+      /\ abs_tbl (doc_root d) = printed_entries (abs_tbl T)
+      /\ tv_equiv x (tomlval_of_abs back (abs_tbl (doc_root d))).
+  Proof.
+    intros Hty Ht Hu Hser Hd. destruct (text_roundtrip r t v x Hty Ht Hu Hser Hd) as (T & d & v' & H1 & H2 & H3 & H4 & H5 & _).
+    exists T, d. auto.
   Qed.
 End Top.
+
+(* the two formatters lay a serialized tree out alike *)
+Theorem pretty_layouts_agree es : doc_edit_pretty (VTab es) = doc_toml (VTab es).
+Proof.
+  change (layout EditStringPretty (VTab es) = layout TomlString (VTab es)).
+  rewrite !layout_formatted by reflexivity. reflexivity.
+Qed.
+
+(* the oracle hypothesis is consistent (a printer that writes the bit pattern itself as a decimal with one fraction
+   digit, and the parser that reads the pattern back): the theorems are not vacuous; that std's shortest-digits printer
+   and correctly rounded parser satisfy it is DESIGN.md 4.4 *)
+Theorem float_oracle_satisfiable : exists fd back, float_oracle fd back.
+Proof.
+  exists (fun b => FDec false b (-1)), (fun f => match f with FDec _ m _ => m | _ => 0%N end).
+  intros b Hb. split; [|left; reflexivity]. split; [lia|].
+  destruct (overflows b (-1)) eqn:E; [|reflexivity]. exfalso.
+  apply overflows_exact in E. unfold exceeds in E. cbn [Z.leb Z.opp] in E.
+  pose proof thr_lo as Hl. change (2 ^ 64)%N with 18446744073709551616%N in Hb.
+  assert (H1 : (10 ^ 308 * 10 ^ 1 <= Z.of_N b)%Z) by (eapply Z.le_trans; [|exact E]; apply Z.mul_le_mono_nonneg_r; lia).
+  assert (H2 : (Z.of_N b < 18446744073709551616)%Z) by lia.
+  assert (H3 : (18446744073709551616 <= 10 ^ 308 * 10 ^ 1)%Z) by (apply Z.leb_le; vm_compute; reflexivity).
+  lia.
+Qed.
